@@ -242,7 +242,7 @@ PROPS = {
         assumptions=["consistent ring states (the property's quantifier); headers whose geometry fits the slot"],
     ),
     "C04": dict(
-        modules=["Fuota.Props.C04", "Fuota.Props.C06c"],
+        modules=["Fuota.Props.C04", "Fuota.Props.C06c", "Fuota.Props.C06d"],
         suites=[dict(name="d5w", cfg="matrix", keys=["res", "ops", "bad", "s0", "s1", "s2", "s3", "s4", "s5"]),
                 dict(name="d5t", cfg="matrix", keys=["res", "ops", "bad", "s0", "s1", "s2", "s3", "s4", "s5"])],
         rule="per generated session: power loss before / during (torn: byte prefix and partially programmed byte) "
